@@ -2,6 +2,47 @@
 from . import _whole
 
 
+def scaling(ctx, results):
+    """LHS / Sobol scaling: the decidable per-box premise of C01_lhs_sobol_scaling is evaluated in Coq for every box the batch used, and the
+    model's scale_gene is compared bit for bit with numpy's lower + sample * (upper - lower)"""
+    import random
+    import numpy as np
+    from ..coqrun import run_cases
+    from ..floatutil import bits, hexb
+    rng = random.Random(ctx.seed + 111)
+    boxes = []
+    for r in results:
+        if r.get("spec") and any(l["engine"] in ("LHS", "Sobol", "Custom") for l in r["spec"]["levels"]):
+            boxes += [tuple(b) for b in r["spec"]["box"]]
+    boxes = sorted(set(boxes))[:300] or [(-0.1, 0.2), (6.3, 6.300000000000002)]
+    header = ("From Coq Require Import ZArith List Bool. Import ListNotations. From HV Require Import F64 Bounds Ops.\nOpen Scope Z_scope.\n"
+              "Definition c (lo hi s : Z) : list Z := [(if scale_ok (of_bits lo) (of_bits hi) then 1 else 0); to_bits (scale_gene (of_bits lo) (of_bits hi) (of_bits s))].")
+    cases = []
+    for lo, hi in boxes:
+        for s_ in (rng.random(), float(np.nextafter(1.0, 0.0)), 0.0, rng.random() * 2.0 ** -30):
+            cases.append((lo, hi, s_))
+    model, err = run_cases("C01-scale", header, [f"c {hexb(lo)} {hexb(hi)} {hexb(s_)}" for lo, hi, s_ in cases])
+    dis, bad_boxes = [], set()
+    if model is None:
+        dis.append({"what": "scaling model failed to evaluate: " + err[-300:]})
+    else:
+        for (lo, hi, s_), mo in zip(cases, model):
+            y = float(np.array([lo]) + np.array([s_]) * (np.array([hi]) - np.array([lo])))
+            if bits(y) != mo[1]:
+                dis.append({"what": f"scale_gene({lo!r}, {hi!r}, {s_!r}): numpy gives {y!r}, the model 0x{mo[1]:016X}"})
+            if mo[0] == 0:
+                bad_boxes.add((lo, hi))
+    return {"violations": [], "disagreements": dis[:5], "evaluations": len(cases), "distinct_nontrivial": len(boxes),
+            "notes": {"boxes_checked_for_lhs_sobol_scaling": len(boxes), "boxes_where_the_last_ulp_premise_fails": len(bad_boxes), "examples_of_such_boxes": sorted(bad_boxes)[:3]}}
+
+
+def _replay_scaling(ctx, data):
+    return False, str(data.get("what"))[:300]
+
+
+scaling.replay_name, scaling.replay = "scaling", _replay_scaling
+
+
 def nontrivial(r):
     return r["spec"]["box_style"] in ("decimal", "tiny", "narrow", "asym") or any(l["engine"] in ("Local", "CMA", "CMAwarm", "CMAstds") for l in r["spec"]["levels"])
 
@@ -15,7 +56,7 @@ _whole.install(globals(), "C01",
                note="External contracts measured on every trace, not proved: np.random.uniform(lo,hi) in [lo,hi] (X1), CMA-ES 'bounds' (X2), scipy 'bounds' (X3), qmc samples in [0,1) with the affine "
                     "LHS/Sobol scaling (X4; one ulp beyond the upper face is conceivable only for samples within 2^-52 of 1). NaN genes (non-finite draws) are outside the domain. " + _whole.HIST_NOTE,
                technique="Coq theorems on Flocq binary64 operators (regenerated apply_bounds) + history-machine invariant over all event streams + vm_compute trace replay + box monitor on real runs",
-               quick=200, thorough=5000, nontrivial=nontrivial, front_ends=["common"], machine_replay=False, hist_replay=True,
+               quick=200, thorough=5000, nontrivial=nontrivial, front_ends=["common"], machine_replay=False, hist_replay=True, extra_checks=[scaling],
                forces=[(3, {"cap_evals": 900}), (1, {"cap_evals": 900, "objective_kind": "linear"}), (1, {"cap_evals": 900, "height": 2, "engines": ["SEA", "Local"]}),
                        (1, {"cap_evals": 900, "height": 2, "engines": ["GAStyleSEA", "CMA"]}),
                        (1, {"cap_evals": 700, "height": 2, "dim": 5, "engines": ["SEA", "DE"], "levels_patch": [{}, {"sample_std": 8.0, "pop": 5}], "box_style": "sym"}),
